@@ -332,13 +332,27 @@ class Body:
         return self.tys[idx]
 
     def place_ty(self, place):
-        """type string of a place if it can be told from the projections (last field type)"""
-        if not place.proj:
-            return self.local_ty(place.local)
-        last = place.proj[-1]
-        if isinstance(last, tuple) and last[0] == "f":
-            return self.tys[last[3]]
-        return None
+        """type string of a place where it can be told: the local's type, `*` strips one reference,
+        a field projection carries its own type; downcasts keep the enum type"""
+        ty = self.local_ty(place.local)
+        for p in place.proj:
+            if ty is None:
+                return None
+            if p == "*":
+                m = re.match(r"^&(?:'\w+ )?(?:mut )?(.*)$", ty)
+                if m:
+                    ty = m.group(1)
+                elif ty.startswith("std::boxed::Box<"):
+                    ty = ty[len("std::boxed::Box<"):-1]
+                else:
+                    ty = None
+            elif isinstance(p, tuple) and p[0] == "f":
+                ty = self.tys[p[3]]
+            elif isinstance(p, tuple) and p[0] == "d":
+                pass
+            else:
+                ty = None
+        return ty
 
     def succs(self, b):
         return self.blocks[b].term.succs()
